@@ -545,6 +545,9 @@ class Interp:
         c = self.unopt(container)
         if isinstance(c, (ZVal, SStr, SBytes)):
             x = self.unopt(x)
+        if isinstance(c, SObj) and c.cands and inspect.getattr_static(c.cands[0], "__contains__", None) is not None and c.cands[0].__module__.startswith("contracts."):
+            # a stand-in class of the sidecar contracts: `in` goes through its (contracted) __contains__
+            return self.truth(self.call_method(c, "__contains__", [x]))
         if isinstance(c, (STuple, SList, SSet)):
             return z3.Or([self.eq(x, e) for e in c.items] + [z3.BoolVal(False)])
         if isinstance(c, SDict):
@@ -1562,6 +1565,13 @@ class Interp:
     def exec_For(self, s, frame):
         key = loop_key(s)
         spec = self.find_loop_spec(frame, key)
+        if spec is None and getattr(self, "accumulate_rules", False):
+            from . import accum
+
+            if accum.applicable(s):
+                it0 = self.eval(s.iter, frame)
+                if self.try_iter_concrete(it0) is None:
+                    return accum.run_for(self, s, frame)
         it = self.eval(s.iter, frame)
         conc = self.try_iter_concrete(it)
         if conc is not None and spec is None:
